@@ -493,6 +493,11 @@ def check(program, rep):
     rep.guard("C01-R3", r3_cores, program, rep)
     rep.guard("C01-R4", r4_default_predicates, program, rep)
     r6_components(program, rep)
+    # arguments handed to package functions under the wrong name / same-
+    # named optional parameters not passed on (NAMELINK, DESIGN.md 9.13)
+    from .. import namelink as _nl
+    rep.guard("C01-R7", _nl.rule, program, rep, "C01-R7",
+              [m for m in sorted(program.modules) if m.startswith("rig.place_and_route")] + [m for m in sorted(program.modules) if m.startswith("rig.routing_table")])
     return finish(rep, program, EXPLANATION, NOT_DECIDED,
                   trusted=["the stage signatures (vertices_resources, nets, "
                            "machine, constraints, placements, allocations, "
